@@ -92,7 +92,12 @@ theorem C02_decode_reads (enc : Option Enc) (hk : int32Known enc = true) (bl : N
 /-- the ODX representation of an internal value in the object's base type / encoding / bit length, as
     mathematics: `Spec.repr` for `A_INT32`, the plain binary numeral for `A_UINT32`, the IEEE-754 binary64 pattern
     for `A_FLOAT64` (values *are* their patterns in this model), the bytes read as one big-endian numeral for
-    `A_BYTEFIELD` (first byte = most significant = lowest address) -/
+    `A_BYTEFIELD` (first byte = most significant = lowest address); `A_FLOAT32`: the binary32 pattern of the same number
+    (`Text.f64to32?`: sign, exponent re-biased by −896, the 23 leading fraction bits — exact on the kind's values, and inverted
+    by the widening `Text.f32to64?`: `Text.f32to64_f64to32`); `A_UTF8STRING`: the UTF-8 encoding of the code points (RFC 3629
+    shortest forms, `Text.utf8Enc1`; inverted by the strict decoder: `Text.utf8_decode_encode`) read as one big-endian numeral;
+    `A_UNICODE2STRING`: likewise with UTF-16BE code units (surrogate pairs above U+FFFF; `Text.utf16_decode_encode`);
+    `A_UINT32` with BCD-P / BCD-UP: decimal digit `i` of the value in bits `[s·i, s·i + 4)`, `s` = 4 / 8 (`bcdEnc_digit`) -/
 def Obj.specRepr (o : Obj) (v : IVal) : Nat :=
   match o.kind, v with
   | .int32, .int i => Spec.repr o.enc o.bl i
@@ -100,6 +105,10 @@ def Obj.specRepr (o : Obj) (v : IVal) : Nat :=
   | .float64, .flt b => b
   | .bytes, .bytes b => b.foldl (fun acc x => 256 * acc + x) 0
   | .ascii, .str cps => cps.foldl (fun acc x => 256 * acc + x) 0          -- ISO-8859-1: one byte per character
+  | .float32, .flt b => (Text.f64to32? b).getD 0
+  | .utf8, .str cps => ((Text.encode .utf8 cps).getD []).foldl (fun acc x => 256 * acc + x) 0
+  | .unicode2, .str cps => ((Text.encode .utf16be cps).getD []).foldl (fun acc x => 256 * acc + x) 0
+  | .bcd, .int i => bcdEnc o.bcdShift i.toNat i.toNat
   | _, _ => 0
 
 theorem foldl_eq_ofBytesBE (b : Bytes) (acc : Nat) :
@@ -121,9 +130,11 @@ theorem Obj.raw_eq_spec (o : Obj) (ho : o.ok) (v : IVal) (hr : o.inRange v) : o.
   · exact C02_numrepr o.enc hk o.bl hbl _ hr
   · rw [foldl_eq_ofBytesBE]; simp
   · rw [foldl_eq_ofBytesBE]; simp
+  · rw [foldl_eq_ofBytesBE]; simp
+  · rw [foldl_eq_ofBytesBE]; simp
 
 /-- **Bit-exact PDUs, flat composite tier.** For a request/response/structure made of (≤ 4000) positioned
-    VALUE parameters (`A_INT32` in any of its four encodings, `A_UINT32`, `A_FLOAT64`, `A_BYTEFIELD`, `A_ASCIISTRING`) and an accepted assignment of representable values with no overlap warning:
+    VALUE parameters (`A_INT32` in any of its four encodings, `A_UINT32`, `A_FLOAT64`, `A_BYTEFIELD`, `A_ASCIISTRING`, `A_FLOAT32`, `A_UTF8STRING`, `A_UNICODE2STRING`, `A_UINT32` in BCD-P / BCD-UP) and an accepted assignment of representable values with no overlap warning:
     (1) bit `j` of the ODX representation of each value sits at the absolute position the positional rule gives —
     the object's byte position is the structure's origin (0) + BYTE-POSITION, or the byte behind the previous
     parameter (`cursorAfter`), its bit position is BIT-POSITION, its byte order as declared;
